@@ -47,6 +47,8 @@ class table_C_B_D_T_(E_B_D_T_.table_E_B_D_T_):
 def _removeUnsupportedForColor(dataFunctions):
     dataFunctions = dict(dataFunctions)
     del dataFunctions["row"]
+    # "bitwise" needs the same per-row access to the bitmap that PNG data lacks
+    del dataFunctions["bitwise"]
     return dataFunctions
 
 
